@@ -77,6 +77,8 @@ class Generator(Curve, Point):
             points_for_x(x)[1 if is_y_supposed_to_be_odd else 0]
         """
         p = self._p
+        if not 0 <= x < p:
+            raise ValueError("x value %d is not a field element" % x)
         alpha = (pow(x, 3, p) + self._a * x + self._b) % p
         y0 = self.modular_sqrt(alpha)
         if y0 == 0:
